@@ -1,2 +1,100 @@
-(* Properties/C06.v — statements only (placeholder until Proofs/Dates*.v land). *)
-From XV Require Import Base.Str Model.Dates Spec.XsdDates.
+(* Properties/C06.v — XML Schema date, time, dateTime (statements only).
+   Model: Model/Dates.v (xsdata/utils/dates.py, xsdata/models/datatype.py);
+   specification: Spec/XsdDates.v (XSD 1.1 lexical spaces, Gregorian calendar, timeline). *)
+From Coq Require Import NArith ZArith List Bool.
+From XV Require Import Base.Str Model.Dates Model.DatesCorr Spec.XsdDates
+  Proofs.DatesCal Proofs.DatesParse Proofs.DatesFormat Proofs.DatesOrder.
+Import ListNotations.
+Open Scope Z_scope.
+
+(* 1. every XSD-valid lexical form (any year width/sign, leap days, 24:00:00, up to 9
+      fraction digits, any timezone), surrounded by XML whitespace, is accepted and
+      yields the components XSD assigns *)
+Theorem C06_date_accepts_xsd : forall sp a b,
+  wf_date sp = true -> year_len_ok (ds_year sp) ->
+  forallb xml_ws a = true -> forallb xml_ws b = true ->
+  date_from_string (a ++ lex_date sp ++ b)
+  = Some (mk_xdate (val_year (ds_year sp)) (ds_month sp) (ds_day sp) (val_tz (ds_tz sp))).
+Proof. exact date_accepts. Qed.
+Print Assumptions C06_date_accepts_xsd.
+
+Theorem C06_time_accepts_xsd : forall sp a b,
+  wf_time sp = true -> forallb xml_ws a = true -> forallb xml_ws b = true ->
+  time_from_string (a ++ lex_time sp ++ b)
+  = Some (mk_xtime (ts_hour sp) (ts_minute sp) (ts_second sp) (val_frac (ts_frac sp)) (val_tz (ts_tz sp))).
+Proof. exact time_accepts. Qed.
+Print Assumptions C06_time_accepts_xsd.
+
+Theorem C06_datetime_accepts_xsd : forall sp a b,
+  wf_datetime sp = true -> year_len_ok (dts_year sp) ->
+  forallb xml_ws a = true -> forallb xml_ws b = true ->
+  datetime_from_string (a ++ lex_datetime sp ++ b)
+  = Some (mk_xdatetime (val_year (dts_year sp)) (dts_month sp) (dts_day sp)
+            (dts_hour sp) (dts_minute sp) (dts_second sp) (val_frac (dts_frac sp)) (val_tz (dts_tz sp))).
+Proof. exact datetime_accepts. Qed.
+Print Assumptions C06_datetime_accepts_xsd.
+
+(* 2. formatting a valid value gives the canonical XSD spelling of that value *)
+Theorem C06_date_str_valid : forall v, valid_date_value v = true ->
+  date_str v = lex_date (canon_date v) /\ wf_date (canon_date v) = true.
+Proof. exact date_str_canonical. Qed.
+Print Assumptions C06_date_str_valid.
+
+Theorem C06_time_str_valid : forall v, valid_time_value v = true ->
+  time_str v = lex_time (canon_time v) /\ wf_time (canon_time v) = true
+  /\ val_frac (ts_frac (canon_time v)) = t_frac v.
+Proof. exact time_str_canonical. Qed.
+Print Assumptions C06_time_str_valid.
+
+Theorem C06_datetime_str_valid : forall v, valid_datetime_value v = true ->
+  datetime_str v = lex_datetime (canon_datetime v) /\ wf_datetime (canon_datetime v) = true
+  /\ val_frac (dts_frac (canon_datetime v)) = dt_frac v.
+Proof. exact datetime_str_canonical. Qed.
+Print Assumptions C06_datetime_str_valid.
+
+(* 3. ... which parses back to an equal value *)
+Theorem C06_date_roundtrip : forall v,
+  valid_date_value v = true -> year_fits (d_year v) -> date_from_string (date_str v) = Some v.
+Proof. exact date_roundtrip. Qed.
+Print Assumptions C06_date_roundtrip.
+
+Theorem C06_time_roundtrip : forall v,
+  valid_time_value v = true -> time_from_string (time_str v) = Some v.
+Proof. exact time_roundtrip. Qed.
+Print Assumptions C06_time_roundtrip.
+
+Theorem C06_datetime_roundtrip : forall v,
+  valid_datetime_value v = true -> year_fits (dt_year v) -> datetime_from_string (datetime_str v) = Some v.
+Proof. exact datetime_roundtrip. Qed.
+Print Assumptions C06_datetime_roundtrip.
+
+(* 4. whatever string is accepted denotes a real calendar date / time of day *)
+Theorem C06_date_rejects_unreal : forall s v,
+  date_from_string s = Some v -> real_date (d_year v) (d_month v) (d_day v) = true.
+Proof. exact date_rejects_unreal. Qed.
+Print Assumptions C06_date_rejects_unreal.
+
+Theorem C06_time_rejects_unreal : forall s v,
+  time_from_string s = Some v -> real_time (t_hour v) (t_minute v) (t_second v) (t_frac v) = true.
+Proof. exact time_rejects_unreal. Qed.
+Print Assumptions C06_time_rejects_unreal.
+
+Theorem C06_datetime_rejects_unreal : forall s v,
+  datetime_from_string s = Some v ->
+  real_date (dt_year v) (dt_month v) (dt_day v) = true /\
+  real_time (dt_hour v) (dt_minute v) (dt_second v) (dt_frac v) = true.
+Proof. exact datetime_rejects_unreal. Qed.
+Print Assumptions C06_datetime_rejects_unreal.
+
+(* 5. ordering/equality of dateTime against the timeline: FALSE of the faithful model
+      (known finding; four independent witnesses in Proofs/DatesOrder.v) *)
+Theorem C06_datetime_order_agrees_refuted : ~ datetime_order_agrees_statement.
+Proof. exact datetime_order_agrees_refuted. Qed.
+Print Assumptions C06_datetime_order_agrees_refuted.
+
+(* non-vacuity of the hypotheses above *)
+Example C06_guards_inhabited :
+  wf_datetime (mk_datetime_sp (mk_year_sp true [49;50;48;48;48]%N) 2 29 24 0 0 [48;48]%N (TzOff true 14 0)) = true
+  /\ valid_datetime_value (mk_xdatetime (-12000) 2 29 23 59 59 120000 (Some (-840))) = true
+  /\ valid_date_value (mk_xdate 0 2 29 None) = true.
+Proof. vm_compute. repeat split; reflexivity. Qed.
